@@ -75,7 +75,7 @@ deriving DecidableEq, Repr, Inhabited
 /-- what the compiled print of a module with data is a function of (at the time of its compilation) -/
 structure Desc where
   feats : List Bytes                  -- enabled own features (main module, then submodules)
-  augBy : List Bytes                  -- names, in `augmented_by` order (order of the appended children)
+  augBy : List Bytes                  -- names, sorted (the print does not depend on the order of `augmented_by`)
   devBy : List Bytes                  -- names, sorted (each deviation touches a node of its own)
   grp : List (Bytes × List Bytes)     -- enabled features of the modules whose grouping is used
 deriving DecidableEq, Repr, Inhabited
@@ -262,7 +262,7 @@ def Mod.impKey (m : Mod) (name : Bytes) : Option MKey := m.impRes.find? (fun k =
 
 def Ctx.descOf (s : Ctx) (m : Mod) : Desc :=
   if m.src.hasData then
-    { feats := m.enabledNames, augBy := m.augBy.map (·.1), devBy := (sortKeys m.devBy).map (·.1),
+    { feats := m.enabledNames, augBy := (sortKeys m.augBy).map (·.1), devBy := (sortKeys m.devBy).map (·.1),
       grp := m.src.usesGrp.filterMap fun n => match m.impKey n with
         | none => none
         | some k => match s.find k with
